@@ -264,8 +264,8 @@ def main():
         if not model_facts.stamp_ok():
             print('model facts stamp missing or stale: running tools/model_facts.py')
             if not model_facts.run():
-                print('UNDECIDED property=%s reason=model facts (verified executable checker) could not be established' % pid)
-                return 2
+                print('UNDECIDED-BY-PROOF property=%s reason=model facts (verified executable checker) could not be established in this tree' % pid)
+                return bounded_only(pid, a, seed, t0, 'model facts (verified executable checker) could not be established in this tree')
     try:
         V = verify_tree()
     except vrun.Undecided as e:
